@@ -308,5 +308,19 @@ impl GenericsAnalyzer {
 fn extract_trait_bounds(
     bounds: &syn::punctuated::Punctuated<syn::TypeParamBound, syn::token::Plus>,
 ) -> Vec<syn::TypeParamBound> {
-    bounds.iter().cloned().collect()
+    bounds
+        .iter()
+        .filter(|bound| {
+            // A relaxed bound (`?Sized`) is not a requirement on the dependency, and is not permitted
+            // in the `Self: ..` where clause the bounds are copied into.
+            !matches!(
+                bound,
+                syn::TypeParamBound::Trait(syn::TraitBound {
+                    modifier: syn::TraitBoundModifier::Maybe(_),
+                    ..
+                })
+            )
+        })
+        .cloned()
+        .collect()
 }
